@@ -3,6 +3,7 @@ import Proofs.BrokerOut
 import Proofs.BrokerOutKeep
 import Props.C08
 import Props.C18
+import Proofs.BrokerFan
 /-
   Props/C15.lean — property C15, broker clauses: order.
   * QoS>0: the stored queue of a session is a FIFO — a publish appends at the tail, the dequeuer (alive
@@ -21,11 +22,12 @@ open BState BrokerB3
 
 /-! ### the stored queue is a FIFO -/
 
-/-- a publish appends at the tail of the queue of the message's class and touches nothing else -/
+/-- a publish appends (the copy capped by the session's grant, `applyQOS`) at the tail of the queue
+    of the message's class — chosen by the published QoS — and touches nothing else -/
 theorem enqueue_appends {cfg : Cfg} {b b' : BSess} {m : Message} {g : Nat}
     (h : enqueue cfg b m g = .ok b') :
-    (if m.qos = 0 then b'.tempQ = b.tempQ ++ [(g, m)] ∧ b'.storedQ = b.storedQ
-     else b'.storedQ = b.storedQ ++ [m] ∧ b'.tempQ = b.tempQ) ∧
+    (if m.qos = 0 then b'.tempQ = b.tempQ ++ [(g, applyQOS b m)] ∧ b'.storedQ = b.storedQ
+     else b'.storedQ = b.storedQ ++ [applyQOS b m] ∧ b'.tempQ = b.tempQ) ∧
     b'.subs = b.subs ∧ b'.sess = b.sess ∧ b'.active = b.active := by
   unfold enqueue at h
   by_cases hq : m.qos = 0
@@ -83,12 +85,12 @@ theorem publish_order {s s1 s2 : BState} {c1 c2 : ConnId} {m1 m2 : Message} {cid
     (hs1 : (subQos b m1.topic).isSome = true) (hs2 : (subQos b m2.topic).isSome = true)
     (hq1 : m1.qos ≠ 0) (hq2 : m2.qos ≠ 0) (hroom : b.storedQ.length + 1 < s.cfg.queue) :
     ∃ b2, Assoc.get s2.stored cid = some b2 ∧
-      b2.storedQ = b.storedQ ++ [{ m1 with retain := false }, { m2 with retain := false }] := by
+      b2.storedQ = b.storedQ ++ [applyQOS b { m1 with retain := false }, applyQOS b { m2 with retain := false }] := by
   obtain ⟨b1, hb1, q1, _, hsub⟩ := C08.offline_queued h1 hb hs1 hq1 (by omega)
   obtain ⟨hcfg, _, _⟩ := backendPublish_frame h1
   obtain ⟨b2, hb2, q2, _, _⟩ := C08.offline_queued h2 hb1 (by rw [subQos, hsub]; exact hs2) hq2
     (by rw [q1, hcfg]; simp; omega)
-  exact ⟨b2, hb2, by rw [q2, q1]; simp⟩
+  exact ⟨b2, hb2, by rw [q2, q1, BrokerFan.applyQOS_congr hsub]; simp⟩
 
 /-! ### the temporary queue: ordered by groups -/
 
@@ -97,7 +99,7 @@ theorem publish_order {s s1 s2 : BState} {c1 c2 : ConnId} {m1 m2 : Message} {cid
     publish / retained batch gets a strictly larger one (`backendPublish_frame`) -/
 theorem publish_temp_group {cfg : Cfg} {b : BSess} {m : Message} {g : Nat}
     (hsub : (subQos b m.topic).isSome = true) (hq : m.qos = 0) (hroom : b.tempQ.length < cfg.queue) :
-    (fanOne cfg m g b).tempQ = b.tempQ ++ [(g, m)] ∧ (fanOne cfg m g b).storedQ = b.storedQ := by
+    (fanOne cfg m g b).tempQ = b.tempQ ++ [(g, applyQOS b m)] ∧ (fanOne cfg m g b).storedQ = b.storedQ := by
   simp [fanOne, hsub, enqueue, hq, hroom]
 
 /-- two consecutive QoS 0 publishes end up in different, increasing groups, in publish order -/
@@ -107,8 +109,8 @@ theorem publish_order_qos0 {s s1 s2 : BState} {c1 c2 : ConnId} {m1 m2 : Message}
     (hs1 : (subQos b m1.topic).isSome = true) (hs2 : (subQos b m2.topic).isSome = true)
     (hq1 : m1.qos = 0) (hq2 : m2.qos = 0) (hroom : b.tempQ.length + 1 < s.cfg.queue) :
     ∃ b2, Assoc.get s2.stored cid = some b2 ∧
-      b2.tempQ = b.tempQ ++ [(s.nextGroup, { m1 with retain := false }),
-                              (s.nextGroup + 1, { m2 with retain := false })] := by
+      b2.tempQ = b.tempQ ++ [(s.nextGroup, applyQOS b { m1 with retain := false }),
+                              (s.nextGroup + 1, applyQOS b { m2 with retain := false })] := by
   obtain ⟨hcfg, hng, _⟩ := backendPublish_frame h1
   have e1 := C08.backendPublish_stored h1 cid
   rw [hb] at e1
@@ -122,7 +124,7 @@ theorem publish_order_qos0 {s s1 s2 : BState} {c1 c2 : ConnId} {m1 m2 : Message}
     (b := fanOne s.cfg { m1 with retain := false } s.nextGroup b) (m := { m2 with retain := false })
     (g := s1.nextGroup) (by rw [subQos, hsub1]; exact hs2) hq2 (by rw [t1, hcfg]; simp; omega)
   refine ⟨_, e2, ?_⟩
-  rw [t2, t1, hng]
+  rw [t2, t1, hng, BrokerFan.applyQOS_congr hsub1]
   simp
 
 /-- A delivery that leaves the stored queue alone took a member of the FIRST group of the temporary
